@@ -158,6 +158,7 @@ class _ExtUniverse:
         self.__dict__.update({k: getattr(U, k) for k in dir(U) if not k.startswith("_")})
         self.Leaf = UV.LeafExt
         self.Node = UV.NodeExt
+        self.Top = UV.TopExt
 
 
 def class_edit(
